@@ -18,9 +18,16 @@ package main
 //	rmp<id>   drop <id> from pl.ProcessorIDs and from every connector's ProcessorIDs
 //	rmc<id>   drop connector <id> from pl.ConnectorIDs
 //	adds<id> / addd<id>   create a source / destination connector without processors and add it
+//	fp<id> / fc<id> / fx  from now on Open of processor <id> / of the plugin of connector <id> fails (fatal error) / nothing fails
+//	s         the real Start(ctx, pipelineID): build, then the engine's open phase (v2 runPipeline: sink.Open, every
+//	          worker.Open, with the rollback it performs on a failure; v1: every node's Run opens its own connector /
+//	          processor). v2: a started run stays live until `t` (Stop graceful + WaitPipeline). v1: the run is
+//	          force-stopped at once and awaited (whether its nodes opened or died), so `s` reports the state after the run ended
 //
-// Observed, per `b`: `ok{…}` or `err:<class>{…}`, per `t`: `t{…}`, where {…} is the set of processor
-// instances that are reserved (`running`) afterwards — probed through the public API:
+// Observed, per `b`: `ok{…}` or `err:<class>{…}`, per `s`: `s:ok{…}` (v2) / `s:ran{…}` (v1) / `s:err:<class>{…}` with the
+// additional classes `open` (v2 open phase failed) and `plrunning`, per `t`: `t{…}`, where {…} is the set of processor
+// instances that are reserved (`running`) afterwards (a trailing `double-teardown` token: some processor plugin instance was
+// torn down twice, which a standalone / WASM processor does not survive - never expected) — probed through the public API:
 // processor.Service.Update refuses a reserved instance with ErrProcessorRunning. The recorded case
 // line is `<case> => <observed>`; the Lean driver accepts it against Model/Rebuild.lean and
 // evaluates the C11 monitor `noLeakAfterFailedBuild`.
@@ -32,15 +39,23 @@ import (
 	"sort"
 	"strconv"
 	"strings"
+	"sync"
+	"sync/atomic"
 	"time"
 
 	"github.com/conduitio/conduit-commons/database/inmemory"
+	"github.com/conduitio/conduit-connector-protocol/pconnector"
+	sdk "github.com/conduitio/conduit-processor-sdk"
+	"github.com/conduitio/conduit/pkg/foundation/cerrors"
 	"github.com/conduitio/conduit/pkg/connector"
 	"github.com/conduitio/conduit/pkg/foundation/log"
 	"github.com/conduitio/conduit/pkg/lifecycle"
 	lifecyclepoc "github.com/conduitio/conduit/pkg/lifecycle-poc"
 	"github.com/conduitio/conduit/pkg/lifecycle/stream"
 	"github.com/conduitio/conduit/pkg/pipeline"
+	connectorPlugin "github.com/conduitio/conduit/pkg/plugin/connector"
+	"github.com/conduitio/conduit/pkg/plugin/connector/builtin"
+	"github.com/conduitio/conduit/pkg/plugin/processor/egress"
 	"github.com/conduitio/conduit/pkg/processor"
 
 	"verif/harness/gen"
@@ -57,6 +72,173 @@ type rbWorld struct {
 	v1      *lifecycle.Service
 	v2      *lifecyclepoc.Service
 	live    []func()
+	mu       sync.Mutex
+	failProc map[string]bool
+	failConn map[string]bool
+	// a processor plugin instance was torn down twice (unsafe for standalone processors)
+	doubleTeardown bool
+}
+
+// ---------------------------------------------------------------- plugins of the rebuild world: they open, run idle and stop;
+// Open fails (fatally: no recovery restart) for the ids the case marked
+
+var errOpenInjected = cerrors.FatalError(errors.New("verif: injected open failure"))
+
+func (w *rbWorld) fails(m map[string]bool, id string) bool {
+	w.mu.Lock()
+	defer w.mu.Unlock()
+	return m[id]
+}
+
+type rbPlugins struct{ w *rbWorld }
+
+func (p rbPlugins) NewDispenser(_ log.CtxLogger, _ string, connectorID string) (connectorPlugin.Dispenser, error) {
+	return rbDispenser{p.w, connectorID}, nil
+}
+
+type rbDispenser struct {
+	w  *rbWorld
+	id string
+}
+
+func (d rbDispenser) DispenseSpecifier() (connectorPlugin.SpecifierPlugin, error) {
+	return nil, errNoPlugin
+}
+func (d rbDispenser) DispenseSource() (connectorPlugin.SourcePlugin, error) {
+	return &rbSource{d.w, d.id}, nil
+}
+func (d rbDispenser) DispenseDestination() (connectorPlugin.DestinationPlugin, error) {
+	return &rbDest{d.w, d.id}, nil
+}
+
+type rbSource struct {
+	w  *rbWorld
+	id string
+}
+
+func (q *rbSource) Configure(context.Context, pconnector.SourceConfigureRequest) (pconnector.SourceConfigureResponse, error) {
+	return pconnector.SourceConfigureResponse{}, nil
+}
+func (q *rbSource) Open(context.Context, pconnector.SourceOpenRequest) (pconnector.SourceOpenResponse, error) {
+	if q.w.fails(q.w.failConn, q.id) {
+		return pconnector.SourceOpenResponse{}, errOpenInjected
+	}
+	return pconnector.SourceOpenResponse{}, nil
+}
+func (q *rbSource) NewStream() pconnector.SourceRunStream { return &builtin.InMemorySourceRunStream{} }
+func (q *rbSource) Run(ctx context.Context, stream pconnector.SourceRunStream) error {
+	st, ok := stream.(*builtin.InMemorySourceRunStream)
+	if !ok {
+		return errors.New("verif: unexpected stream type")
+	}
+	st.Init(ctx)
+	return nil
+}
+func (q *rbSource) Stop(context.Context, pconnector.SourceStopRequest) (pconnector.SourceStopResponse, error) {
+	return pconnector.SourceStopResponse{}, nil
+}
+func (q *rbSource) Teardown(context.Context, pconnector.SourceTeardownRequest) (pconnector.SourceTeardownResponse, error) {
+	return pconnector.SourceTeardownResponse{}, nil
+}
+func (q *rbSource) LifecycleOnCreated(context.Context, pconnector.SourceLifecycleOnCreatedRequest) (pconnector.SourceLifecycleOnCreatedResponse, error) {
+	return pconnector.SourceLifecycleOnCreatedResponse{}, nil
+}
+func (q *rbSource) LifecycleOnUpdated(context.Context, pconnector.SourceLifecycleOnUpdatedRequest) (pconnector.SourceLifecycleOnUpdatedResponse, error) {
+	return pconnector.SourceLifecycleOnUpdatedResponse{}, nil
+}
+func (q *rbSource) LifecycleOnDeleted(context.Context, pconnector.SourceLifecycleOnDeletedRequest) (pconnector.SourceLifecycleOnDeletedResponse, error) {
+	return pconnector.SourceLifecycleOnDeletedResponse{}, nil
+}
+
+type rbDest struct {
+	w  *rbWorld
+	id string
+}
+
+func (d *rbDest) Configure(context.Context, pconnector.DestinationConfigureRequest) (pconnector.DestinationConfigureResponse, error) {
+	return pconnector.DestinationConfigureResponse{}, nil
+}
+func (d *rbDest) Open(context.Context, pconnector.DestinationOpenRequest) (pconnector.DestinationOpenResponse, error) {
+	if d.w.fails(d.w.failConn, d.id) {
+		return pconnector.DestinationOpenResponse{}, errOpenInjected
+	}
+	return pconnector.DestinationOpenResponse{}, nil
+}
+func (d *rbDest) NewStream() pconnector.DestinationRunStream {
+	return &builtin.InMemoryDestinationRunStream{}
+}
+func (d *rbDest) Run(ctx context.Context, stream pconnector.DestinationRunStream) error {
+	st, ok := stream.(*builtin.InMemoryDestinationRunStream)
+	if !ok {
+		return errors.New("verif: unexpected stream type")
+	}
+	st.Init(ctx)
+	return nil
+}
+func (d *rbDest) Stop(context.Context, pconnector.DestinationStopRequest) (pconnector.DestinationStopResponse, error) {
+	return pconnector.DestinationStopResponse{}, nil
+}
+func (d *rbDest) Teardown(context.Context, pconnector.DestinationTeardownRequest) (pconnector.DestinationTeardownResponse, error) {
+	return pconnector.DestinationTeardownResponse{}, nil
+}
+func (d *rbDest) LifecycleOnCreated(context.Context, pconnector.DestinationLifecycleOnCreatedRequest) (pconnector.DestinationLifecycleOnCreatedResponse, error) {
+	return pconnector.DestinationLifecycleOnCreatedResponse{}, nil
+}
+func (d *rbDest) LifecycleOnUpdated(context.Context, pconnector.DestinationLifecycleOnUpdatedRequest) (pconnector.DestinationLifecycleOnUpdatedResponse, error) {
+	return pconnector.DestinationLifecycleOnUpdatedResponse{}, nil
+}
+func (d *rbDest) LifecycleOnDeleted(context.Context, pconnector.DestinationLifecycleOnDeletedRequest) (pconnector.DestinationLifecycleOnDeletedResponse, error) {
+	return pconnector.DestinationLifecycleOnDeletedResponse{}, nil
+}
+
+type rbProcRegistry struct{ w *rbWorld }
+
+type rbProcessor struct {
+	sdk.UnimplementedProcessor
+	w         *rbWorld
+	id        string
+	teardowns atomic.Int32
+}
+
+func (p *rbProcessor) Open(context.Context) error {
+	if p.w.fails(p.w.failProc, p.id) {
+		return errOpenInjected
+	}
+	return nil
+}
+
+// Teardown: a standalone (WASM) processor closes its command channel here, so a second Teardown of
+// the same plugin instance panics in the real thing - it is recorded and reported as `double-teardown`.
+func (p *rbProcessor) Teardown(context.Context) error {
+	if p.teardowns.Add(1) > 1 {
+		p.w.mu.Lock()
+		p.w.doubleTeardown = true
+		p.w.mu.Unlock()
+	}
+	return nil
+}
+
+func (r rbProcRegistry) NewProcessor(_ context.Context, _ string, id string, _ egress.Policy) (sdk.Processor, error) {
+	return &rbProcessor{w: r.w, id: id}, nil
+}
+
+// rbPipelines is the PipelineService of the lifecycle service: the one pipeline of the case.
+type rbPipelines struct{ w *rbWorld }
+
+func (p rbPipelines) Get(_ context.Context, id string) (*pipeline.Instance, error) {
+	if id != p.w.pl.ID {
+		return nil, pipeline.ErrInstanceNotFound
+	}
+	return p.w.pl, nil
+}
+func (p rbPipelines) List(context.Context) map[string]*pipeline.Instance {
+	return map[string]*pipeline.Instance{p.w.pl.ID: p.w.pl}
+}
+func (p rbPipelines) UpdateStatus(_ context.Context, id string, st pipeline.Status, msg string) error {
+	if id == p.w.pl.ID {
+		p.w.pl.SetStatus(st)
+	}
+	return nil
 }
 
 const rbPlugin = "builtin:verif"
@@ -92,9 +274,10 @@ func (w *rbWorld) mkConn(kind byte, id string, procs []procRef) {
 func newRbWorld(eng string, pprocs []procRef, conns []connCfg) *rbWorld {
 	logger := log.Nop()
 	db := &inmemory.DB{}
-	w := &rbWorld{ctx: context.Background(), procs: map[string]bool{}, conns: map[string]bool{}, listed: map[string]bool{}}
-	w.connSvc = connector.NewService(logger, db, connector.NewPersister(logger, db, time.Hour, 1<<20))
-	w.procSvc = processor.NewService(logger, db, procRegistry{})
+	w := &rbWorld{ctx: context.Background(), procs: map[string]bool{}, conns: map[string]bool{}, listed: map[string]bool{},
+		failProc: map[string]bool{}, failConn: map[string]bool{}}
+	w.connSvc = connector.NewService(logger, db, connector.NewPersister(logger, db, time.Millisecond, 1))
+	w.procSvc = processor.NewService(logger, db, rbProcRegistry{w})
 	w.pl = &pipeline.Instance{ID: "verif-pl", Config: pipeline.Config{Name: "verif-pipeline"}, DLQ: pipeline.DefaultDLQ}
 	for _, p := range pprocs {
 		if p.found {
@@ -108,9 +291,9 @@ func newRbWorld(eng string, pprocs []procRef, conns []connCfg) *rbWorld {
 	}
 	rec := &lifecycle.ErrRecoveryCfg{MinDelay: time.Millisecond, MaxDelay: time.Millisecond, BackoffFactor: 2, MaxRetries: 0, MaxRetriesWindow: time.Second}
 	if eng == "v1" {
-		w.v1 = lifecycle.NewService(logger, rec, w.connSvc, w.procSvc, connPlugins{}, noPipelines{})
+		w.v1 = lifecycle.NewService(logger, rec, w.connSvc, w.procSvc, rbPlugins{w}, rbPipelines{w})
 	} else {
-		w.v2 = lifecyclepoc.NewService(logger, rec, w.connSvc, w.procSvc, connPlugins{}, noPipelines{}, true)
+		w.v2 = lifecyclepoc.NewService(logger, rec, w.connSvc, w.procSvc, rbPlugins{w}, rbPipelines{w}, true)
 	}
 	return w
 }
@@ -168,6 +351,55 @@ func (w *rbWorld) build() string {
 	return "ok"
 }
 
+func classifyStart(err error) string {
+	m := err.Error()
+	switch {
+	case errors.Is(err, pipeline.ErrPipelineRunning):
+		return "err:plrunning"
+	case strings.Contains(m, "failed to open shared sink"), strings.Contains(m, "failed to open worker"):
+		return "err:open"
+	}
+	return classify(err)
+}
+
+// waitBounded runs f and gives up after d (the goroutine is abandoned: the case reports `hang`).
+func waitBounded(d time.Duration, f func()) bool {
+	done := make(chan struct{})
+	go func() { defer close(done); f() }()
+	select {
+	case <-done:
+		return true
+	case <-time.After(d):
+		return false
+	}
+}
+
+// start is the real Start of the engine.
+func (w *rbWorld) start() string {
+	if w.v2 != nil {
+		if err := w.v2.Start(w.ctx, w.pl.ID); err != nil {
+			return "s:" + classifyStart(err)
+		}
+		w.live = append(w.live, func() {
+			_ = w.v2.Stop(context.Background(), w.pl.ID, false)
+			if !waitBounded(10*time.Second, func() { _ = w.v2.WaitPipeline(w.pl.ID) }) {
+				panic("hang: v2 run does not end")
+			}
+		})
+		return "s:ok"
+	}
+	if err := w.v1.Start(w.ctx, w.pl.ID); err != nil {
+		return "s:" + classifyStart(err)
+	}
+	// v1 opens inside the nodes' goroutines: end the run at once (force) and wait for it, whichever
+	// nodes opened, failed to open or never got that far
+	_ = w.v1.Stop(context.Background(), w.pl.ID, true)
+	if !waitBounded(10*time.Second, func() { _ = w.v1.WaitPipeline(w.pl.ID) }) {
+		return "s:hang"
+	}
+	return "s:ran"
+}
+
 func filterOut(xs []string, id string) []string {
 	var out []string
 	for _, x := range xs {
@@ -200,10 +432,10 @@ func runRebuild(head string) string {
 	// validate the steps before touching anything
 	for _, st := range steps {
 		switch {
-		case st == "b", st == "t":
+		case st == "b", st == "t", st == "s", st == "fx":
 		default:
 			okp := false
-			for _, pre := range []string{"mk", "rmp", "rmc", "adds", "addd"} {
+			for _, pre := range []string{"mk", "rmp", "rmc", "adds", "addd", "fp", "fc"} {
 				if rest, has := strings.CutPrefix(st, pre); has {
 					if _, good := parseID(rest); good {
 						okp = true
@@ -222,6 +454,21 @@ func runRebuild(head string) string {
 		switch {
 		case st == "b":
 			out = append(out, w.build()+w.held())
+		case st == "s":
+			out = append(out, w.start()+w.held())
+		case st == "fx":
+			w.mu.Lock()
+			w.failProc, w.failConn = map[string]bool{}, map[string]bool{}
+			w.mu.Unlock()
+		case strings.HasPrefix(st, "fp"), strings.HasPrefix(st, "fc"):
+			id, _ := parseID(st[2:])
+			w.mu.Lock()
+			if st[1] == 'p' {
+				w.failProc[id] = true
+			} else {
+				w.failConn[id] = true
+			}
+			w.mu.Unlock()
 		case st == "t":
 			for _, c := range w.live {
 				c()
@@ -250,6 +497,12 @@ func runRebuild(head string) string {
 			w.pl.ConnectorIDs = append(w.pl.ConnectorIDs, id)
 		}
 	}
+	w.mu.Lock()
+	dbl := w.doubleTeardown
+	w.mu.Unlock()
+	if dbl {
+		out = append(out, "double-teardown")
+	}
 	if len(out) == 0 {
 		return "-"
 	}
@@ -259,11 +512,11 @@ func runRebuild(head string) string {
 // non-trivial: a build failed while at least one processor was (still) reserved, or a teardown ran
 func ntRebuild(_, res string) bool {
 	for _, t := range strings.Fields(res) {
-		if strings.HasPrefix(t, "err:") && !strings.HasSuffix(t, "{}") {
+		if strings.Contains(t, "err:") && !strings.HasSuffix(t, "{}") {
 			return true
 		}
 	}
-	return strings.Contains(res, "ok{") && strings.Contains(res, "t{")
+	return (strings.Contains(res, "ok{") && strings.Contains(res, "t{")) || strings.Contains(res, "s:ran{")
 }
 
 // ---------------------------------------------------------------- generator
@@ -436,6 +689,54 @@ func genRebuild(r *gen.Rand, o *gen.Out) string {
 		for i := r.Range(2, 6); i > 0; i-- {
 			steps = append(steps, all[r.Intn(len(all))])
 		}
+	}
+	// Start instead of the bare build, and Open failures of a processor / a connector plugin
+	if r.Chance(1, 2) {
+		o.Count("start:yes")
+		for i, st := range steps {
+			if st == "b" && r.Chance(2, 3) {
+				steps[i] = "s"
+			}
+		}
+		if r.Chance(2, 3) {
+			var inj []string
+			for n := r.Pick(70, 30) + 1; n > 0; n-- {
+				if ps := allProcs(); len(ps) > 0 && r.Chance(3, 5) {
+					o.Count("open-failure:processor")
+					inj = append(inj, "fp"+strings.TrimSuffix(*ps[r.Intn(len(ps))], "?"))
+				} else if len(conns) > 0 {
+					c := conns[r.Intn(len(conns))]
+					o.Count("open-failure:connector-" + c.kind)
+					inj = append(inj, "fc"+c.id)
+				}
+			}
+			// the failure is in place for the first Start after a random prefix, and lifted after it
+			at := 0
+			for i, st := range steps {
+				if st == "s" {
+					at = i
+					if r.Chance(2, 3) {
+						break
+					}
+				}
+			}
+			var ns []string
+			ns = append(ns, steps[:at]...)
+			ns = append(ns, inj...)
+			if at < len(steps) {
+				ns = append(ns, steps[at])
+				ns = append(ns, "fx")
+				if r.Chance(1, 2) {
+					ns = append(ns, "s")
+				}
+				ns = append(ns, steps[at+1:]...)
+			}
+			steps = ns
+		} else {
+			o.Count("open-failure:none")
+		}
+	} else {
+		o.Count("start:no")
 	}
 	o.Count(fmt.Sprintf("steps:%d", len(steps)))
 	if r.Chance(1, 50) {
